@@ -101,6 +101,8 @@ def gen_cases(ctx):
         case["ws_final"] = rng.random() < 0.8
         case["ws_target"] = rng.choice(["solver", "model0"])
         case["N"] = max(case["N"], 2)
+        case["default_args"] = rng.random() < 0.5        # library default optimizer_args={} where the optimizer allows
+        case["interleave"] = rng.random() < 0.3          # an unrelated fit in the same process before the resumes
         return case
     # the Lean witness of `resumeOld_not_exact`, replayed on the real code (fixed corpus case)
     cases.append(dress(dict(channel="rat", models=[dict(kind="poly", init=["1/2"])], params=[],
@@ -163,6 +165,14 @@ def run(ctx, rep, cases=None):
                 rep.disagree("checkpoint schedule: model `ckptWritten` (batch_idx % interval == 0) vs files actually written",
                              case, obs["written"], want)
             periods = [call_period(c) for c in case["train"]]
+            if case.get("interleave"):
+                # several fits / resumes in one process: an unrelated solver with default optimizer_args and another
+                # learning rate is trained between the interrupted run and its resumption
+                other = dict(channel="rat", models=[dict(kind="poly", init=["1/4", "1/2"])], params=[], val=[], N=2, sanity=False, val_every=0,
+                             train=[dict(kind="pinn", weight="1", model=0, res="lin", sets=[["1/2", "-1/4"]], static=False, c=["1/4", "1/2", "0"])],
+                             opt=dict(kind="sgd", lr="1/512", momentum="0", dampening="0", wd="0", step_size=1, gamma="1/2", freq=1), default_args=True)
+                c07.run_impl(other)
+                rep.count("interleaved-fit")
             for (b, k) in obs["written"]:
                 B2, rec2 = run_resumed(case, os.path.join(tmp, f"state_{k}.ckpt"))
                 sub = dict(case, interrupt_at=k)
